@@ -18,7 +18,7 @@ void run(const std::string & tn)
   constexpr bool F = std::is_same_v<S, float>;
   const double T   = F ? 1e-2 : 1e-7;  // stated, relative to the largest entry of the exact matrix
 
-  auto Ts = tangents<R, S>(AlphaOpts::full());
+  auto Ts = tangents<R, S>(AlphaOpts::dense());
   mc::explore("C04/exp-jac/" + tn, Ts.size(), [&](mc::Case & c) {
     const auto & t = Ts[c.idx];
     const auto a   = make<G>(t);
